@@ -1,4 +1,5 @@
 import PharmpyModel.C04.Theta
+import PharmpyModel.C04.OmegaDiag
 /-
   Helper lemmas for C04: how the helpers of theta_record.py act on a list of
   children that starts with "filler" nodes (blanks, comments, commas), and on
@@ -945,5 +946,204 @@ theorem exShape_wf : exShape.WF ∧ exShape.Input := by
   · intro x hx; simp [exShape] at hx; rcases hx with rfl | rfl | rfl <;> simp [tokWs, tokFix, nRep]
   · intro h; simp [exShape] at h
 
+
+/-! ### general lemmas (arbitrary child lists) for the diagonal omega model -/
+
+@[simp] theorem tokWs_k : tokWs.k = .ws := rfl
+@[simp] theorem tokFix_k : tokFix.k = .fix := rfl
+
+theorem hasK_eq_isSome (k : K) (cs : List TNode) : hasK k cs = (findK k cs).isSome := by
+  induction cs with
+  | nil => rfl
+  | cons x xs ih =>
+    by_cases h : x.k = k <;> simp [hasK_cons, findK_cons, h, ih]
+
+theorem findK_replaceFirst_ne (new : TNode) (k : K) (hk : k ≠ new.k) (cs : List TNode) :
+    findK k (replaceFirst new cs) = findK k cs := by
+  induction cs with
+  | nil => rfl
+  | cons x xs ih =>
+    by_cases h : x.k = new.k
+    · have : x.k ≠ k := fun e => hk (e ▸ h)
+      simp [replaceFirst, h, findK_cons, Ne.symm hk]
+    · simp [replaceFirst, h, findK_cons, ih]
+
+theorem findK_replaceFirst_eq (new : TNode) (cs : List TNode) (h : hasK new.k cs = true) :
+    findK new.k (replaceFirst new cs) = some new := by
+  induction cs with
+  | nil => simp at h
+  | cons x xs ih =>
+    by_cases hx : x.k = new.k
+    · simp [replaceFirst, hx, findK_cons]
+    · simp [hasK_cons, hx] at h
+      simp [replaceFirst, hx, findK_cons, ih h]
+
+theorem rmFixAux_findK (k : K) (hk : k ≠ .ws ∧ k ≠ .fix) (acc T : List TNode) :
+    findK k (rmFixAux acc T) = findK k (acc.reverse ++ T) := by
+  induction T generalizing acc with
+  | nil => simp [rmFixAux]
+  | cons x T ih =>
+    by_cases hf : x.k = .fix
+    · have hxk : x.k ≠ k := fun e => hk.2 (e ▸ hf)
+      cases acc with
+      | nil => simp [rmFixAux, hf, ih, findK_cons, Ne.symm hk.2]
+      | cons a acc =>
+        by_cases hw : a.k = .ws
+        · simp [rmFixAux, hf, hw, ih, findK_append, findK_cons, Ne.symm hk.2, Ne.symm hk.1]
+        · simp [rmFixAux, hf, hw, ih, findK_append, findK_cons, Ne.symm hk.2]
+    · simp [rmFixAux, hf, ih, findK_append, findK_cons]
+
+theorem rmFix_findK (k : K) (hk : k ≠ .ws ∧ k ≠ .fix) (cs : List TNode) : findK k (rmFix cs) = findK k cs := by
+  simpa [rmFix] using rmFixAux_findK k hk [] cs
+
+theorem rmFix_noFix (cs : List TNode) : hasK .fix (rmFix cs) = false := rmFixAux_noFix [] cs rfl
+
+theorem insertBefore_findK (k : K) (hk : k ≠ .ws ∧ k ≠ .fix) (cs : List TNode) :
+    findK k (insertBefore .rpar [tokWs, tokFix] cs) = findK k cs := by
+  induction cs with
+  | nil => rfl
+  | cons x xs ih =>
+    by_cases h : x.k = .rpar
+    · simp [insertBefore, h, findK_cons, Ne.symm hk.1, Ne.symm hk.2, ih]
+    · simp [insertBefore, h, findK_cons, ih]
+
+theorem insertFix_findK (k : K) (hk : k ≠ .ws ∧ k ≠ .fix) (cs : List TNode) :
+    findK k (insertBeforeOrAtEnd .rpar [tokWs, tokFix] cs) = findK k cs := by
+  unfold insertBeforeOrAtEnd
+  cases hf : hasK .rpar cs
+  · simp [findK_append, findK_cons, Ne.symm hk.1, Ne.symm hk.2]
+  · simp [insertBefore_findK k hk cs]
+
+theorem insertBefore_hasFix (cs : List TNode) (h : hasK .rpar cs = true) :
+    hasK .fix (insertBefore .rpar [tokWs, tokFix] cs) = true := by
+  induction cs with
+  | nil => simp at h
+  | cons x xs ih =>
+    by_cases hx : x.k = .rpar
+    · simp [insertBefore, hx, hasK_cons]
+    · simp [hasK_cons, hx] at h
+      simp [insertBefore, hx, hasK_cons, ih h]
+
+theorem insertFix_hasFix (cs : List TNode) : hasK .fix (insertBeforeOrAtEnd .rpar [tokWs, tokFix] cs) = true := by
+  unfold insertBeforeOrAtEnd
+  cases hf : hasK .rpar cs
+  · simp [hasK_append, hasK_cons]
+  · simpa using insertBefore_hasFix cs hf
+
+theorem setRaw_valInit (cs : List TNode) (p : OParam) (h : hasK .init cs = true) :
+    valK .init (setRaw cs p) = some p.raw := by
+  unfold setRaw valK
+  rw [hasK_eq_isSome] at h
+  cases hf : findK .init cs with
+  | none => simp [hf] at h
+  | some i =>
+    by_cases hv : i.val = p.raw
+    · simp [hv, hf]
+    · have : hasK (numNode .init p.rawS p.raw).k cs = true := by
+        rw [hasK_eq_isSome]; simp [numNode, hf]
+      simp only [ne_eq, hv, not_false_eq_true, ↓reduceIte]
+      have e := findK_replaceFirst_eq (numNode .init p.rawS p.raw) cs this
+      simp only [numNode] at e ⊢
+      simp [e]
+
+theorem setRaw_findK (k : K) (hk : k ≠ .init) (cs : List TNode) (p : OParam) :
+    findK k (setRaw cs p) = findK k cs := by
+  unfold setRaw
+  cases hf : findK .init cs with
+  | none => rfl
+  | some i =>
+    by_cases hv : i.val = p.raw
+    · simp [hv]
+    · simp only [ne_eq, hv, not_false_eq_true, ↓reduceIte]
+      exact findK_replaceFirst_ne _ k (by simpa [numNode] using hk) cs
+
+/-- what the "all equal" path does to the observations the reader makes -/
+theorem updDiagSame_obs (cs : List TNode) (p : OParam) (h : hasK .init cs = true) :
+    valK .init (updDiagSame cs p) = some p.raw ∧ hasK .fix (updDiagSame cs p) = p.fix ∧
+    hasK .sd (updDiagSame cs p) = hasK .sd cs ∧ hasK .var (updDiagSame cs p) = hasK .var cs ∧
+    multiple (updDiagSame cs p) = multiple cs := by
+  have hfix0 : hasK .fix (setRaw cs p) = hasK .fix cs := by
+    simp [hasK_eq_isSome, setRaw_findK .fix (by simp) cs p]
+  have hk : ∀ k : K, k ≠ .init → k ≠ .ws → k ≠ .fix →
+      findK k (updDiagSame cs p) = findK k cs := by
+    intro k h1 h2 h3
+    unfold updDiagSame
+    by_cases hf : p.fix = hasK .fix cs
+    · simp [hf, setRaw_findK k h1]
+    · cases hp : p.fix
+      · simp [hp] at hf
+        simp [hp, hf, rmFix_findK k ⟨h2, h3⟩, setRaw_findK k h1]
+      · simp [hp] at hf
+        simp [hp, hf, insertFix_findK k ⟨h2, h3⟩, setRaw_findK k h1]
+  refine ⟨?_, ?_, ?_, ?_, ?_⟩
+  · unfold updDiagSame valK
+    have h0 := setRaw_valInit cs p h
+    unfold valK at h0
+    by_cases hf : p.fix = hasK .fix cs
+    · simp [hf, h0]
+    · cases hp : p.fix
+      · simp [hp] at hf
+        simp [hp, hf, rmFix_findK .init (by simp), h0]
+      · simp [hp] at hf
+        simp [hp, hf, insertFix_findK .init (by simp), h0]
+  · unfold updDiagSame
+    by_cases hf : p.fix = hasK .fix cs
+    · simp [hf, hfix0]
+    · cases hp : p.fix
+      · simp [hp] at hf
+        simp [hp, hf, rmFix_noFix]
+      · simp [hp] at hf
+        simp [hp, hf, insertFix_hasFix]
+  · simp [hasK_eq_isSome, hk .sd (by simp) (by simp) (by simp)]
+  · simp [hasK_eq_isSome, hk .var (by simp) (by simp) (by simp)]
+  · simp [multiple, hk .rep (by simp) (by simp) (by simp)]
+
+
+/-- the diagonal record analogue of `noRepeatSplit`: as many parameters as the record has etas, every
+    `(v)xn` item (n ≥ 1) receives n identical parameters -/
+def noRepeatSplitD : List DNode → List OParam → Bool
+  | [], ps => ps.isEmpty
+  | .item cs :: r, ps =>
+    match ps with
+    | [] => false
+    | p :: _ => decide (1 ≤ multiple cs) && (ps.take (multiple cs) == List.replicate (multiple cs) p) &&
+        noRepeatSplitD r (ps.drop (multiple cs))
+  | _ :: r, ps => noRepeatSplitD r ps
+
+/-- what the reader is expected to see after the update -/
+def expectD : List DNode → List OParam → List DParsed
+  | [], _ => []
+  | .item cs :: r, ps =>
+    match ps with
+    | [] => []
+    | p :: _ => List.replicate (multiple cs) { raw := p.raw, sd := hasK .sd cs, fix := p.fix } ++
+        expectD r (ps.drop (multiple cs))
+  | _ :: r, ps => expectD r ps
+
+/-- items the reader accepts: an init, not both SD and VAR -/
+def DiagOK (r : List DNode) : Prop :=
+  ∀ cs, DNode.item cs ∈ r → hasK .init cs = true ∧ (hasK .sd cs && hasK .var cs) = false
+
+def nonItemsD : List DNode → List DNode
+  | [] => []
+  | .item _ :: r => nonItemsD r
+  | x :: r => x :: nonItemsD r
+
+theorem removeDiagAux_parse (inds : List Nat) (i : Nat) (keep : Bool) (r : List DNode) :
+    parseDiagItems (removeDiagAux inds i keep r) = dropIdx inds i (parseDiagItems r) := by
+  induction r generalizing i keep with
+  | nil => rfl
+  | cons x r ih =>
+    cases x with
+    | tok t => cases keep <;> simp [removeDiagAux, parseDiagItems, ih]
+    | diagonal t => simp [removeDiagAux, parseDiagItems, ih]
+    | item cs =>
+      by_cases hc : i ∈ inds
+      · simp [removeDiagAux, parseDiagItems, dropIdx, hc, ih]
+      · simp [removeDiagAux, parseDiagItems, dropIdx, hc, ih]
+
+def nSd : TNode := { k := .sd, rule := "SD", text := "SD" }
+def nNewline : TNode := { k := .other, rule := "NEWLINE", text := "\n" }
+def oP (n : Int) (d : Nat) (s : String) (fix : Bool) : OParam := { raw := .fin n d, rawS := s, fix := fix }
 
 end Pharmpy.C04
